@@ -55,6 +55,30 @@ def is_pure(e):
     return False
 
 
+def _target(s):
+    """what a simple statement writes, syntactically: ('v', name) / ('a', array or pointer name) / None"""
+    e = None
+    if s[0] == "assign":
+        e = s[1]
+    elif s[0] == "effect":
+        x = s[1]
+        if x[0] in ("casg",):
+            e = x[2]
+        elif x[0] == "inc":
+            e = x[1]
+        elif x[0] == "asg":
+            e = x[1]
+    if e is None:
+        return None
+    if e[0] == "v":
+        return ("v", e[1])
+    while e[0] == "ld":
+        e = e[1]
+    if e[0] == "v":
+        return ("a", e[1])
+    return None
+
+
 def normalize(stmts, is_c):
     """common normal form of both sides"""
     out = []
@@ -210,7 +234,8 @@ class Lockstep(vcgen.Unit):
                     j2 += 1
                 crun = [x for x in cs[i:i2] if x[0] != "declare"]
                 prun = ps[j:j2]
-                if len(crun) != len(prun):
+                if len(crun) != len(prun) or [_target(x) for x in crun] != [_target(x) for x in prun]:
+                    # different length, or the same statements in another order (independent stores swapped)
                     for d in cs[i:i2]:
                         if d[0] == "declare":
                             cur.types[d[1]] = unconst(d[2])
